@@ -318,9 +318,16 @@ func oracleFilter(c *Case, direct []string, idx int, res *lib.Result) {
 		}
 		return out
 	}
-	cmp := func(got []string, who string) {
+	// the rule, event by event: which received lines must be logged, with the lists then in force
+	type verdict struct {
+		ev       int
+		line     string
+		want     bool
+		acc, den []string
+	}
+	var vs []verdict
+	{
 		var acc, den []*regexp.Regexp
-		ptr := 0
 		for k, e := range c.Evs {
 			switch e.A {
 			case "accept":
@@ -335,26 +342,50 @@ func oracleFilter(c *Case, direct []string, idx int, res *lib.Result) {
 				den = without(den, e.S)
 			case "":
 				want := (len(acc) == 0 && len(den) == 0) || (!any(den, e.S) && any(acc, e.S))
-				obs := ptr < len(got) && got[ptr] == e.S
-				if obs {
-					ptr++
-				}
-				if obs == want {
-					continue
-				}
-				clause := "filter-blocked-a-permitted-line"
-				if obs {
-					clause = "filter-logged-a-forbidden-line"
-				}
-				res.Violate(lib.Violation{Clause: clause, Case: idx, Key: clause + ":" + who, Replay: c,
-					Detail: fmt.Sprintf("%s, event %d: line %q with accept patterns %q and deny patterns %q in force: logged=%v, the rule says %v",
-						who, k, e.S, srcs(acc), srcs(den), obs, want)})
-				return
+				vs = append(vs, verdict{k, e.S, want, srcs(acc), srcs(den)})
 			}
 		}
-		if ptr != len(got) {
+	}
+	cmp := func(got []string, who string) {
+		report := func(clause string, v verdict, logged bool) {
+			res.Violate(lib.Violation{Clause: clause, Case: idx, Key: clause + ":" + who, Replay: c,
+				Detail: fmt.Sprintf("%s, event %d: line %q with accept patterns %q and deny patterns %q in force: logged=%v, the rule says %v",
+					who, v.ev, v.line, v.acc, v.den, logged, v.want)})
+		}
+		// the forbidden line among vs[from:to] whose text is s, if any
+		forbidden := func(from, to int, s string) *verdict {
+			for k := to - 1; k >= from; k-- {
+				if !vs[k].want && vs[k].line == s {
+					return &vs[k]
+				}
+			}
+			return nil
+		}
+		ptr, last := 0, 0
+		for k, v := range vs {
+			if !v.want {
+				continue
+			}
+			if ptr < len(got) && got[ptr] == v.line {
+				ptr, last = ptr+1, k+1
+				continue
+			}
+			if ptr < len(got) {
+				if f := forbidden(last, k, got[ptr]); f != nil {
+					report("filter-logged-a-forbidden-line", *f, true)
+					return
+				}
+			}
+			report("filter-blocked-a-permitted-line", v, false)
+			return
+		}
+		if ptr < len(got) {
+			if f := forbidden(last, len(vs), got[ptr]); f != nil {
+				report("filter-logged-a-forbidden-line", *f, true)
+				return
+			}
 			res.Violate(lib.Violation{Clause: "filter-passes-exactly", Case: idx, Key: "filter-passes-exactly:" + who, Replay: c,
-				Detail: fmt.Sprintf("%s logged %d lines, of which only the first %d are received lines in order; next is %q", who, len(got), ptr, got[ptr])})
+				Detail: fmt.Sprintf("%s logged %q, which is not a received line at that point", who, got[ptr])})
 		}
 	}
 	if !hasDelete(c.Evs) {
